@@ -437,6 +437,131 @@ fn split_delivery(rep: &Report, tier: Tier) -> u64 {
     total
 }
 
+/// An intra picture whose encoding is just above `target` bytes: escape-coded macroblocks until
+/// the target is reached, flat ones for the rest of the grid.
+fn heavy_picture(target: usize, std: bool, salt: usize) -> Pic {
+    let heavy = |i: usize| -> Mb {
+        let blocks: [Blk; 6] = std::array::from_fn(|b| {
+            let mut blk = Blk::dc(60 + ((i * 6 + b + salt) * 11 % 120) as u8);
+            if blk.dc == Some(128) {
+                blk.dc = Some(129);
+            }
+            for k in 0..63usize {
+                let level = 1 + ((i + b + k + salt) % 3) as i16;
+                blk.ev.push(Ev { run: 0, level: if (i + k) % 2 == 0 { level } else { -level }, form: Form::Esc8 });
+            }
+            blk
+        });
+        Mb::Coded { kind: Kind::Intra, dquant: 0, mvd: vec![], blocks }
+    };
+    let per_heavy = 6 * (8 + 63 * 22) + 6; // bits, about
+    let needed = target * 8 / per_heavy + 2;
+    let mbw = ((needed as f64).sqrt().ceil() as usize).clamp(1, 127);
+    let mbh = needed.div_ceil(mbw);
+    let (w, h) = ((mbw * 16) as u16, (mbh * 16) as u16);
+    let hdr = if std { Hdr::Std(StdHdr::custom(w, h, false, 3, 1)) } else { Hdr::S(SHdr { version: 0, tr: 3, size: SSize::Custom16(w, h), ptype: 0, deblock: false, q: 1, pei: vec![] }) };
+    let hbits = encode(&Pic { hdr: hdr.clone(), mbs: vec![] }).nbits;
+    let one = encode(&Pic { hdr: hdr.clone(), mbs: vec![heavy(0)] }).nbits - hbits;
+    let n_heavy = (target * 8 + 512 - hbits).div_ceil(one).min(mbw * mbh);
+    let mbs: Vec<Mb> = (0..mbw * mbh).map(|i| if i < n_heavy { heavy(i) } else { Mb::intra_flat(70 + (i % 50) as u8) }).collect();
+    Pic { hdr, mbs }
+}
+
+/// Scale: pictures of 2^k bytes and a little more, failing late (data ends, or an invalid code,
+/// near the end or at a power-of-two offset): state unchanged, reader rewound, retry succeeds.
+fn scale_delivery(rep: &Report, tier: Tier) {
+    let ks: Vec<u32> = if tier.thorough() { (12..=21).collect() } else { vec![12, 14, 16, 17, 18] };
+    let mut work: Vec<(u32, bool)> = vec![];
+    for &k in &ks {
+        work.push((k, false));
+        if k % 2 == 0 || tier.thorough() {
+            work.push((k, true));
+        }
+    }
+    let total: u64 = work
+        .par_iter()
+        .map(|&(k, std)| {
+            let opts = if std { 0 } else { 1 };
+            let pic = heavy_picture(1usize << k, std, k as usize);
+            let full = encode_bytes(&pic);
+            let mut whole = Dec::new(opts);
+            let mut st = CmpStats::default();
+            match whole.step_bytes(&pic, &full, "C05", &mut st) {
+                Ok(Some(_)) => {}
+                Ok(None) => {
+                    rep.violation("C05/machinery-large-picture-invalid", format!("large base picture of {} bytes is rejected by decoder and model", full.len()), json!({"kind": "machinery"}));
+                    return 0;
+                }
+                Err(f) => {
+                    rep.violation(&f.sig, format!("[large base picture, {} bytes] {}", full.len(), f.what), json!({"kind": "large", "std": std, "k": k, "cut": full.len()}));
+                    return 0;
+                }
+            }
+            let (want_key, want_snap) = (state_key(&whole.st), last_snap(&whole.st));
+            let mut cuts: Vec<usize> = vec![full.len() - 1, full.len() - 2, full.len() - 100, full.len() / 2, full.len() / 3];
+            for j in 8..=k {
+                cuts.extend([(1usize << j) - 1, 1 << j, (1 << j) + 1]);
+            }
+            cuts.retain(|c| *c > 16 && *c < full.len());
+            cuts.sort();
+            cuts.dedup();
+            let mut n = 0u64;
+            for &cut in &cuts {
+                for corrupt in [false, true] {
+                    n += 1;
+                    let replay = json!({"kind": "large", "std": std, "k": k, "cut": cut, "corrupt": corrupt, "bytes": full.len()});
+                    let mut d = Dec::new(opts);
+                    let key0 = state_key(&d.st);
+                    // first delivery: the picture up to `cut`; corrupt = followed by sixteen zero
+                    // bytes (an invalid code wherever the cut falls) instead of the end of data
+                    let mut first = full[..cut].to_vec();
+                    if corrupt {
+                        first.extend_from_slice(&[0u8; 16]);
+                    }
+                    let data = Rc::new(RefCell::new(first.clone()));
+                    let mut rd = H263Reader::from_source(Grow(data.clone(), 0));
+                    match decode_with(&mut d.st, &mut rd) {
+                        Outcome::Panic(p) => rep.violation(&panic_sig(&p), format!("large picture ({} bytes) cut at {cut}: panic {p}", full.len()), replay),
+                        Outcome::Ok => {} // accepted as ending early; its content is C03's and the small split sweep's business
+                        Outcome::Err(_) => {
+                            if state_key(&d.st) != key0 {
+                                rep.violation("C05/large-failed-call-changed-state", format!("large picture ({} bytes) cut at {cut}: error, but the decoder state changed", full.len()), replay);
+                                continue;
+                            }
+                            // the reader delivers the same bytes again from the start of the picture
+                            let mut ok = true;
+                            for (i, b) in first.iter().enumerate() {
+                                if rd.read_u8().ok() != Some(*b) {
+                                    rep.violation("C05/large-reader-not-rewound", format!("large picture ({} bytes) cut at {cut}{}: after the failed call byte {i} read from the same reader differs from the source", full.len(), if corrupt { " + zeros" } else { "" }), replay.clone());
+                                    ok = false;
+                                    break;
+                                }
+                            }
+                            if !ok || corrupt {
+                                continue;
+                            }
+                            // retry on a twin reader after the rest has arrived
+                            let mut d2 = Dec::new(opts);
+                            let data2 = Rc::new(RefCell::new(full[..cut].to_vec()));
+                            let mut rd2 = H263Reader::from_source(Grow(data2.clone(), 0));
+                            let _ = decode_with(&mut d2.st, &mut rd2);
+                            data2.borrow_mut().extend_from_slice(&full[cut..]);
+                            let o2 = decode_with(&mut d2.st, &mut rd2);
+                            if !o2.is_ok() || state_key(&d2.st) != want_key || last_snap(&d2.st) != want_snap {
+                                rep.violation("C05/large-retry-after-more-data", format!("large picture: the call with the first {cut} of {} bytes failed; after appending the rest the same reader gives {} and {} the picture decoded in one piece", full.len(), o2.short(), if last_snap(&d2.st) == want_snap { "matches" } else { "does NOT match" }), replay);
+                            }
+                        }
+                    }
+                }
+            }
+            n
+        })
+        .sum();
+    rep.add_transitions(2 * total);
+    rep.add_states(total);
+    rep.extra("large_picture_cases", json!(total));
+}
+
 pub fn run(tier: Tier) -> Report {
     let rep = Report::new("C05", "atomic", tier);
     let site_failed: Mutex<BTreeMap<String, u64>> = Mutex::new(BTreeMap::new());
@@ -468,8 +593,9 @@ pub fn run(tier: Tier) -> Report {
     let sf = site_failed.lock().unwrap().clone();
     rep.extra("failing_calls_per_site", json!(sf));
     split_delivery(&rep, tier);
+    scale_delivery(&rep, tier);
     rep.set_rule(
-        "for every state of the reachable decoder graph (closed alphabets of C04, both modes) x every failure site (no start code, header cut at every byte, reserved size/format, unsupported types, invalid MCBPC/CBPY/MVD/INTRADC/TCOEF/escape after 0 or 1 good macroblocks in I and P pictures, prediction without or with a mismatching reference): if the call returns Err then the whole decoder state (hooked key incl. carried-over options), the most recent picture and the bits re-read from the same reader are unchanged, a second failure changes nothing, and every continuation equals a twin that never saw the input; every byte split of every base picture delivered in two parts to one reader; non-trivial = (non-initial state, site) pairs",
+        "for every state of the reachable decoder graph (closed alphabets of C04, both modes) x every failure site (no start code, header cut at every byte, reserved size/format, unsupported types, invalid MCBPC/CBPY/MVD/INTRADC/TCOEF/escape after 0 or 1 good macroblocks in I and P pictures, prediction without or with a mismatching reference): if the call returns Err then the whole decoder state (hooked key incl. carried-over options), the most recent picture and the bits re-read from the same reader are unchanged, a second failure changes nothing, and every continuation equals a twin that never saw the input; every byte split of every base picture delivered in two parts to one reader; pictures of 2^k bytes (k = 12..18, thorough ..21) cut or corrupted near the end, in the middle and at every power-of-two offset: state unchanged, the reader re-delivers every byte, the retry after the rest arrives equals the one-piece decode; non-trivial = (non-initial state, site) pairs",
     );
     rep.sample(json!({"state": ["I(tr=0,0)", "Da(tr=255,1)"], "failing_input": "INTRADC 0 in macroblock 1 of an I picture (deblocking flag set)", "continuation": "Pb(tr=0,1)"}));
     rep.sample(json!({"split": "32x16 P picture after [I, D], bytes 0..k delivered first for every k"}));
@@ -478,6 +604,22 @@ pub fn run(tier: Tier) -> Report {
 }
 
 pub fn replay(case: &serde_json::Value) {
+    if case["kind"] == "large" {
+        let (k, std) = (case["k"].as_u64().unwrap_or(12) as u32, case["std"].as_bool().unwrap_or(false));
+        let full = encode_bytes(&heavy_picture(1usize << k, std, k as usize));
+        let cut = (case["cut"].as_u64().unwrap_or(0) as usize).min(full.len());
+        let mut first = full[..cut].to_vec();
+        if case["corrupt"].as_bool().unwrap_or(false) {
+            first.extend_from_slice(&[0u8; 16]);
+        }
+        let mut st = h263_rs::H263State::new(options_from_bits(if std { 0 } else { 1 }));
+        let data = Rc::new(RefCell::new(first.clone()));
+        let mut rd = H263Reader::from_source(Grow(data.clone(), 0));
+        println!("heavy_picture(2^{k} bytes, standard mode = {std}) encodes to {} bytes; first call with {} bytes: {}", full.len(), first.len(), decode_with(&mut st, &mut rd).short());
+        let again: Vec<u8> = (0..first.len().min(8)).filter_map(|_| rd.read_u8().ok()).collect();
+        println!("the same reader now delivers {} ...; the source starts with {}", hex(&again), hex(&first[..first.len().min(8)]));
+        return;
+    }
     let opts = case["options"].as_u64().unwrap_or(1) as u8;
     let mut st = h263_rs::H263State::new(options_from_bits(opts));
     for s in case["history"].as_array().unwrap() {
